@@ -210,3 +210,22 @@ Print Assumptions angular_hertz_inverse.
 Theorem hertz_angular_inverse : forall a sr, sr <> 0 -> hertz_to_angular (angular_to_hertz a sr) sr = a.
 Proof. exact hertz_angular_inverse_l. Qed.
 Print Assumptions hertz_angular_inverse.
+(* anchors, order, linearity: Nyquist <-> pi rad/sample, the sampling rate <-> one full turn *)
+Theorem hertz_to_angular_nyquist : forall sr, sr <> 0 -> hertz_to_angular (sr / 2) sr = PI.
+Proof. exact nyquist_l. Qed.
+Print Assumptions hertz_to_angular_nyquist.
+Theorem angular_to_hertz_pi : forall sr, angular_to_hertz PI sr = sr / 2.
+Proof. exact angular_pi_l. Qed.
+Print Assumptions angular_to_hertz_pi.
+Theorem angular_to_hertz_2pi : forall sr, angular_to_hertz (2 * PI) sr = sr.
+Proof. exact angular_2pi_l. Qed.
+Print Assumptions angular_to_hertz_2pi.
+Theorem hertz_to_angular_increasing : forall a b sr, 0 < sr -> a < b -> hertz_to_angular a sr < hertz_to_angular b sr.
+Proof. exact hertz_to_angular_incr_l. Qed.
+Print Assumptions hertz_to_angular_increasing.
+Theorem angular_to_hertz_increasing : forall a b sr, 0 < sr -> a < b -> angular_to_hertz a sr < angular_to_hertz b sr.
+Proof. exact angular_to_hertz_incr_l. Qed.
+Print Assumptions angular_to_hertz_increasing.
+Theorem hertz_to_angular_linear : forall a b c sr, sr <> 0 -> hertz_to_angular (c * a + b) sr = c * hertz_to_angular a sr + hertz_to_angular b sr.
+Proof. exact hertz_to_angular_linear_l. Qed.
+Print Assumptions hertz_to_angular_linear.
